@@ -31,7 +31,8 @@ ASSUMPTIONS = [
     "samples within 1e-9 (relative) of a window edge, or within 1e-6 Hz of the centre, are ambiguous: every admissible outcome is accepted",
     "NUMBA_BOUNDSCHECK=1 turns out-of-range indexing inside the JIT kernels into IndexError (verified on a deliberately broken guard)",
 ]
-NOT_REACHED = ["non-linear grids for Savitzky-Golay (refused by the code)", "negative frequencies",
+NOT_REACHED = ["narrow integer spectra (uint8/int16): Savitzky-Golay adds pairs of samples in the input dtype, so numpy wrap-around applies (seen with uint8; not judged)",
+               "non-linear grids for Savitzky-Golay (refused by the code)", "negative frequencies",
                "grids longer than 65537 bins"]
 BUDGET = {"quick": dict(cases=3000, seconds=55, shards=4),
           "thorough": dict(cases=600000, seconds=420, shards=16)}
@@ -308,7 +309,7 @@ def fam_sg_cubic(ctx, rng):
 
 def fam_boundscheck(ctx, rng):
     """One bounds-checked pass per run (shard 0, first time this family comes up)."""
-    if ctx.shard != 0 or ctx.counters.get("boundscheck_runs", 0):
+    if not ctx.once_per_run("boundscheck"):
         return fam_model_small(ctx, rng)
     ctx.count("boundscheck_runs")
     ncalls = 150 if ctx.tier == "quick" else 2500
@@ -356,7 +357,45 @@ def _boundscheck_main(seed, ncalls, out):
         json.dump({"calls": calls, "index_errors": index_errors, "other_errors": other}, fh)
 
 
-FAMILIES = [("model-small-grid", fam_model_small), ("model-fft-grid", fam_model_fft),
+_COMPILED_DTYPE_PAIRS = set()
+
+
+def fam_dtypes(ctx, rng):
+    """Spectra that are not float64 (integer counts, float32): the result is still the kernel average (computed in double
+    precision), not a truncated / narrowed copy of it.  The interpreted source is always exercised; the compiled kernel for at
+    most four (operator, dtype) pairs per shard (each is a separate numba specialisation, ~1.5 s of compile time)."""
+    name = M.OPERATORS[int(rng.integers(0, 7))]
+    dtype = [np.float32, np.int64, np.int32][int(rng.integers(0, 3))]
+    n = int(rng.choice([64, 256, 1024]))
+    dt = float(rng.choice([0.01, 0.005]))
+    f = np.fft.rfftfreq(n, dt)
+    nrows = int(rng.integers(1, 4))
+    if np.issubdtype(dtype, np.integer):
+        s = rng.integers(0, 200, (nrows, f.size)).astype(dtype)
+    else:
+        s = (rng.random((nrows, f.size)) * 100).astype(dtype)
+    b = gen_bandwidth(rng, name, f)
+    fcs = np.sort(rng.uniform(f[2], f[-3], 12))
+    meta = dict(name=name, n=n, dt=dt, nrows=nrows, scls="random-" + np.dtype(dtype).name, fcls="off-grid", b=b)
+    ctx.describe(**meta, fcs=fcs)
+    res = M.smooth(name, f, s.astype(float), fcs, b)
+    outs = {"interpreted": np.asarray(call(name, f, s, fcs, b, interpreted=True), dtype=float)}
+    pair = (name, np.dtype(dtype).name)
+    if pair in _COMPILED_DTYPE_PAIRS or len(_COMPILED_DTYPE_PAIRS) < 4:
+        _COMPILED_DTYPE_PAIRS.add(pair)
+        outs["compiled"] = np.asarray(call(name, f, s, fcs, b), dtype=float)
+    for how, out in outs.items():
+        # single-precision input may be combined in single precision (Savitzky-Golay adds pairs of samples first)
+        bad = M.mismatches(out, res, rtol=1e-5 if dtype is np.float32 else 1e-9)
+        ctx.check(not bad, "model-equal", f"{name} ({how}) on a {np.dtype(dtype).name} spectrum: output differs from the normalised "
+                  f"kernel average at {len(bad)} centre frequencies", how=how,
+                  got=[float(out[r, j]) for r, j in bad[:3]], want=[float(res.base[r, j]) for r, j in bad[:3]], **meta)
+    ctx.count("operator_calls", len(outs))
+    ctx.nontrivial(["dtype", name, np.dtype(dtype).name, n, nrows])
+    ctx.state([name, np.dtype(dtype).name])
+
+
+FAMILIES = [("non-float64-spectra", fam_dtypes), ("model-small-grid", fam_model_small), ("model-fft-grid", fam_model_fft),
             ("window-edges", fam_edges), ("linearity-rows", fam_linear_rows),
             ("sg-cubic", fam_sg_cubic), ("model-small-grid-2", fam_model_small),
             ("boundscheck", fam_boundscheck)]
